@@ -49,6 +49,8 @@ def gen_requests(rng, w, tier, exhaustive_len=24, per_channel=None, slice_exhaus
                 wins.append((off, rng.choice([None, 0, 1, rng.randint(0, n + 2)])))
         for off, ln in wins:
             reqs.append({'op': 'read_data', 'ch': path, 'offset': off, 'length': ln})
+            if rng.random() < 0.1:
+                reqs[-1]['np'] = rng.choice(['int64', 'int32', 'intp'])
         # slices
         rngv = list(range(-n - 2, n + 3)) + [None]
         steps = [None, 1, -1, 2, -2, 3, -3, 0]
@@ -61,6 +63,8 @@ def gen_requests(rng, w, tier, exhaustive_len=24, per_channel=None, slice_exhaus
             for _ in range(30 if quick else 150):
                 reqs.append({'op': 'slice', 'ch': path, 'start': rng.choice(rngv), 'stop': rng.choice(rngv),
                              'step': rng.choice(steps)})
+                if rng.random() < 0.1:
+                    reqs[-1]['np'] = rng.choice(['int64', 'int32', 'intp'])
         # integers
         ints = list(range(-n - 2, n + 2))
         if len(ints) > (16 if quick else 60):
